@@ -118,6 +118,8 @@ def bounds(tier):
                     "mode(B, annealing on + custom sampler parameters + population samplers requested), mean(B), simulate[table with string | integer identifiers] (logistic), save+load; "
                     "input forms rotate over DataFrame with columns / DataFrame indexed by (ID, TIME) / Data / Dataset",
             "seeds": "algorithm seed 0 (+ VERIF_SEED on the first model)",
+            "benchmark_kinds": "lme (random slope on / off) and constant (last / mean): every sequence of length <= 2 of personalize(A), personalize(B), "
+                               "estimate x 3 request shapes, save+load on one model object",
         }
     return {
         "models": list(THOROUGH_SPECS),
@@ -126,6 +128,8 @@ def bounds(tier):
                 "settings = annealing on + sampler parameters + population samplers requested / custom solver options) + scipy/mode on the single-individual cohort C + every input form for scipy_minimize/B and "
                 "mode_posterior/B, simulate[table with string ids | table with integer ids | random] (logistic), save+load",
         "seeds": "algorithm seed 0 (+ VERIF_SEED on the first two models)",
+        "benchmark_kinds": "lme (random slope on / off) and constant (last / mean): every sequence of length <= 3 of personalize(A), personalize(B), "
+                           "estimate x 3 request shapes, save+load on one model object",
     }
 
 
@@ -143,6 +147,10 @@ def shards(tier, seed):
             out.append({"model": name, "tier": tier, "seed": s, "depth": depth, "first": None})
             for op in m:
                 out.append({"model": name, "tier": tier, "seed": s, "depth": depth, "first": op})
+    from .. import c13_bench as B
+
+    for b in B.CONFIGS:
+        out.append({"bench": b, "depth": 2 if tier == "quick" else 3, "tier": tier})
     return out
 
 
@@ -216,6 +224,15 @@ def run_shard(shard):
     import subprocess
     import sys
 
+    if "bench" in shard:
+        # benchmark kinds (stateless models): small in-process BFS, see lmc/c13_bench.py
+        from .. import c13_bench as B
+
+        acc = Acc()
+        with L.workdir() as wd:
+            B.explore(shard["bench"], shard["depth"], wd, acc)
+        return acc.to_dict()
+
     env = dict(os.environ, PYTHONHASHSEED="0", OMP_NUM_THREADS="1", MKL_NUM_THREADS="1", OPENBLAS_NUM_THREADS="1")
     root = os.path.dirname(os.path.dirname(os.path.dirname(os.path.abspath(__file__))))
     env["PYTHONPATH"] = os.pathsep.join([p for p in (env.get("PYTHONPATH"), root) if p])
@@ -227,6 +244,11 @@ def run_shard(shard):
 
 
 def replay(case):
+    if "bench" in case:
+        from .. import c13_bench as B
+
+        with L.workdir() as wd:
+            return B.replay(case, wd)
     L.start_ref_server()  # before anything of leaspy is run in this process
     try:
         spec = MODEL_SPECS[case["model"]]
